@@ -562,12 +562,40 @@ def replay(pid, path):
     reqs = [obj["request"]] if "request" in obj else [c["request"] for c in obj.get("correspondence_broken", [])]
     with Lock():
         build_coq(); build_driver(); build_harness()
-    for r in reqs:
+    if obj.get("why"):
+        print("reported:", obj["why"])
+    suites = {}
+    try:
+        mod = importlib.import_module("props." + pid.lower())
+        suites = {s.name: s for s in mod.suites()}
+    except Exception as e:
+        print("(suites of %s not loaded: %s)" % (pid, e))
+    names = [obj.get("suite")] * len(reqs) if "request" in obj else [c.get("suite") for c in obj.get("correspondence_broken", [])]
+    still = False
+    for r, sn in zip(reqs, names):
+        su = suites.get(sn)
+        mo = model_run([r])[0] if (su is None or su.model) else None
+        io = impl_run([r], dict(su.env or {}, VERIF_CRASH_DETAIL="1") if su else {"VERIF_CRASH_DETAIL": "1"})[0]
         print("request:", r)
-        print("  model:", model_run([r])[0])
-        print("  impl :", impl_run([r], {"VERIF_CRASH_DETAIL": "1"})[0])
+        if mo is not None:
+            print("  model:", mo)
+        print("  impl :", io)
+        if su is not None:
+            if mo is not None:
+                same = (su.project()(r, io) == su.project()(r, mo)) if su.project else io == mo
+                print("  model and implementation %s on the compared observable" % ("agree" if same else "DIFFER"))
+                still = still or not same
+            if su.oracle:
+                try:
+                    v = su.oracle(r, io)
+                except Exception as e:
+                    v = None
+                    print("  (oracle needs the generator's state for this request: %s)" % e)
+                if v:
+                    print("  property oracle:", v); still = True
     if not reqs:
         print(json.dumps(obj, indent=1))
+    return 1 if still else 0
 
 
 def main():
@@ -589,7 +617,7 @@ def main():
     if "--tier" in a:
         tier = a[a.index("--tier") + 1]
     if "--replay" in a:
-        return replay(pid, a[a.index("--replay") + 1])
+        sys.exit(replay(pid, a[a.index("--replay") + 1]))
     seed = int(os.environ.get("VERIF_SEED", "1"))
     sys.exit(run_check(pid, tier, seed))
 
